@@ -4360,6 +4360,10 @@ func (p *Parser) parseAlterSequence(pos token.Pos) *ast.AlterSequence {
 		restartCounterWith = p.parseRestartCounterWith()
 	}
 
+	if options == nil && skipRange == nil && noSkipRange == nil && restartCounterWith == nil {
+		p.panicfAtToken(&p.Token, "expected token: SET, SKIP, NO, RESTART, but: %s", p.Token.Kind)
+	}
+
 	return &ast.AlterSequence{
 		Alter:              pos,
 		Name:               name,
